@@ -1566,5 +1566,6 @@ func genC06(c *Ctx) {
 	genC06Lines(c)
 	genC06PEM(c)
 	genC06JKS(c)
+	genC06Big(c)
 	os.RemoveAll(filepath.Join(c.Tmp, "c06"))
 }
